@@ -198,6 +198,7 @@ type Builder struct {
 	newFns   map[*ssa.Function]bool
 	patcher  map[*ssa.Function]bool
 	frames   map[string]*frame
+	lits     map[string]*Literal // instruction literals returned by helper functions, by id (see env.rets)
 	nodes    map[string]*Node
 	pending  []pendingNode
 	opIndex  map[string]int
@@ -599,6 +600,9 @@ func (b *Builder) Build(root *ssa.Function, obj *ssa.Alloc) *Graph { return b.bu
 func (b *Builder) build(root *ssa.Function, obj *ssa.Alloc, fr *frame) *Graph {
 	b.g = &Graph{Root: root, Object: obj, Cfg: b.cfg}
 	b.frames = map[string]*frame{}
+	if b.lits == nil {
+		b.lits = map[string]*Literal{}
+	}
 	b.nodes = map[string]*Node{}
 	b.pending = nil
 	e := env{ops: map[string]uint32{}, last: map[string]int8{}, phis: map[string]int{}, lenz: map[string]int8{}, rets: map[string]*origin.O{}}
@@ -844,7 +848,15 @@ func (b *Builder) next(s state, seen map[string]bool) []*Node {
 			ne := b.dropFrame(s.env, s.fr)
 			if !b.emitters[s.fr.fn] && len(x.Results) == 1 {
 				// a value helper: remember what it returned on this path
-				ne.rets[s.fr.parent.id+"/"+call.Name()] = b.resolver(s.fr, s.env).Of(x.Results[0], s.fr.of, x)
+				if isBPFStruct(x.Results[0].Type()) {
+					// an instruction built by a helper: keep the literal as built on this path
+					lit := b.literalOf(x.Results[0], s)
+					id := "literal:" + s.fr.id + "/" + lit.signature()
+					b.lits[id] = lit
+					ne.rets[s.fr.parent.id+"/"+call.Name()] = &origin.O{Kind: origin.KUnknown, Name: id, Val: x.Results[0], Type: x.Results[0].Type()}
+				} else {
+					ne.rets[s.fr.parent.id+"/"+call.Name()] = b.resolver(s.fr, s.env).Of(x.Results[0], s.fr.of, x)
+				}
 			}
 			s = state{fr: s.fr.parent, blk: call.Block(), idx: instrIndex(call) + 1, env: ne}
 		case *ssa.Jump:
@@ -1362,7 +1374,7 @@ func (b *Builder) valueHelperD(f *ssa.Function, depth int) bool {
 	if f.Signature.Results().Len() != 1 {
 		return false
 	}
-	if _, ok := f.Signature.Results().At(0).Type().Underlying().(*types.Basic); !ok {
+	if _, ok := f.Signature.Results().At(0).Type().Underlying().(*types.Basic); !ok && !isBPFStruct(f.Signature.Results().At(0).Type()) {
 		return false
 	}
 	nb := 0
@@ -1389,6 +1401,16 @@ func (b *Builder) valueHelperD(f *ssa.Function, depth int) bool {
 		}
 	}
 	return nb <= 12
+}
+
+// isBPFStruct: one of the instruction structs of golang.org/x/net/bpf (a helper may build and return a single instruction).
+func isBPFStruct(t types.Type) bool {
+	n, ok := t.(*types.Named)
+	if !ok || n.Obj().Pkg() == nil || n.Obj().Pkg().Path() != "golang.org/x/net/bpf" {
+		return false
+	}
+	_, isStruct := n.Underlying().(*types.Struct)
+	return isStruct
 }
 
 func isLocalAlloc(v ssa.Value) bool {
